@@ -108,7 +108,7 @@ def kf_c05_1(_payload):
 def search_request(payload):
     """directed concrete search: request shapes x reply streams, against the request oracle"""
     method = payload['method']
-    cmds = ['QG', ' QG ', 'V', 'R,1', 'S,2,3', 'SM,1,0,0', 'qs', 'X']
+    cmds = ['QG', ' QG ', 'V', 'R,1', 'S,2,3', 'SM,1,0,0', 'qs', 'X', 'T3,1,2', 'S2,0,4', 'L3']
     if method == 'query_statusbyte':
         cmds = [None]
     streams = []
@@ -116,13 +116,15 @@ def search_request(payload):
         for tail in ([b'%s\r\n'], [b'%s,1\r\n'], [b'%sX\r\n'], [b'ZZ\r\n'], [b'%s Err: 1\r\n'], ['EXC'], [],
                      # payloads that begin with a comma or blank; a refused / foreign reply FOLLOWED by a well-formed one
                      [b'%s,,x\r\n'], [b'%s,\r\n'], [b'%s, x\r\n'], [b'ZZ\r\n', b'%s\r\n'], [b'!8 Err: x\r\n', b'%s,1\r\n'],
-                     [b'%s Err: 1\r\n', b'%s\r\n'], [b'ZZ\r\n', b'', b'%s\r\n']):
+                     [b'%s Err: 1\r\n', b'%s\r\n'], [b'ZZ\r\n', b'', b'%s\r\n'],
+                     # the name occurs, but not at the start; only the FIRST letter of a two-character name matches
+                     [b'?%s,1\r\n'], [b'X%s\r\n'], [b'@1P\r\n'], [b'@1,7\r\n'], [b'@1\r\n']):
             streams.append([b''] * b + tail)
     for cmd in cmds:
         t = 'QG' if cmd is None else cmd.strip()
         nm = name_of(t).encode()
         for st in streams:
-            reads = [(x % nm if isinstance(x, bytes) and b'%s' in x else x) for x in st]
+            reads = [(x % nm if isinstance(x, bytes) and b'%s' in x else (x.replace(b'@1', nm[:1]) if isinstance(x, bytes) else x)) for x in st]
             enc = [x.decode('latin-1') if isinstance(x, bytes) else x for x in reads]
             for wexc in ([], [0]):
                 p = {'method': method, 'args': ([] if cmd is None else [cmd]), 'reads': enc, 'write_exc_at': wexc}
@@ -157,6 +159,9 @@ def replay_caller(payload):
         return {'fails': True, 'observed': f'raised {type(ex).__name__}: {ex}', 'expected': 'no exception'}
     problems = []
     if failed:
+        first_fail = min(k for k, o in enumerate(outcomes) if not o.endswith('-ok'))
+        if port.n_writes > first_fail + 1:
+            problems.append(f'{port.n_writes - first_fail - 1} more transmission(s) after the request that failed (request #{first_fail})')
         if e.err is None:
             problems.append('err not set after a failed request')
         if res != fv or (fv is False and res is not False) or (fv is None and res is not None):
@@ -279,7 +284,7 @@ def search_callers(_payload):
         if name == 'motors_enable':
             args = [0, 2]
         if name == 'timed_pause':
-            args = [1600]
+            args = [2400]
         for k in range(0, 5):
             for kind in ('fail', 'wfail'):
                 outcomes = ['x-ok'] * k + [f'x-{kind}']
